@@ -67,7 +67,10 @@ def c13(ctx, res):
     ctx.gen_replay(res, "stream", "MC_Stream.tla", "MC_Stream_cut_%s.cfg" % t, workers=8)
     ctx.gen_replay(res, "stream", "MC_Stream.tla", "MC_Stream_jsoncut_quick.cfg", workers=8)
     ctx.gen_replay(res, "file", "MC_Stream.tla", "MC_Stream_files.cfg", workers=4)
-    res.assumptions += ["encoding/xml finds the end of the root element (document boundaries of XML streams are given by construction)",
+    # the adaptor's no-loss / no-duplication invariant for a stream of ARBITRARY length (Apalache, inductive)
+    ctx.apalache_inductive(res, "AdaptorInd.tla")
+    res.assumptions += ["AdaptorInd.tla restates the adaptor actions of MxjStream over integers (delivered = count of deliveries) so that Apalache can discharge the invariant for unbounded stream length; it is not bound to the code separately",
+                        "encoding/xml finds the end of the root element (document boundaries of XML streams are given by construction)",
                         "Reads are of one byte (the adaptors and getJson always pass a 1-byte buffer), so a schedule is a sequence of per-byte outcomes D/DE/Z/E",
                         "liveness (every call returns) is checked by TLC under weak fairness with the zero-read budget in the state"]
 
